@@ -35,3 +35,35 @@ def source_negative_vo_with_rs(v):
     if v["clause"].split(":")[-1] == "energy.system":
         return bool(d.get("neg_sources_with_rs_live"))
     return False
+
+
+def _unguarded(kind, args):
+    """Series forms whose transfer law has no polarity guard (F2)."""
+    if kind == "Source":
+        return abs(args.get("rs", 0.0)) > 0
+    if kind in ("PSwitch", "PMux"):
+        rs = args.get("rs", 0.0)
+        return (any(abs(x) > 0 for x in rs) if isinstance(rs, list) else abs(rs) > 0)
+    if kind == "Rectifier":
+        vd = args.get("vdrop", 0.0)
+        return not isinstance(vd, dict) and vd == 0.0 and abs(args.get("rs", 0.0)) > 0
+    return False
+
+
+@mechanism("series.no_polarity_guard")
+def series_no_polarity_guard(v):
+    """F2: an overloaded Source resistance / PSwitch / PMux / MOSFET Rectifier returns an inverted,
+    amplified or diverged (inf) output instead of raising 'Unstable system' like RLoss/VLoss/diode do.
+
+    Matches only when the failing row IS such an element and the reference law has no valid output at
+    the row's own (Vin, Iout) - or, for the enumerated family, when the series form is one of the four."""
+    d = v["detail"]
+    cl = v["clause"].split(":")[-1]
+    if cl in ("phys.polarity", "phys.no_gain"):
+        return _unguarded(d.get("kind"), d.get("args", {})) and d.get("reference_lost_polarity") is True
+    if cl == "finite":
+        return d.get("origin") is True and _unguarded(d.get("kind"), d.get("args", {}))
+    if cl == "overload.decided":
+        fam = d.get("family", {})
+        return fam.get("series") in ("Source", "PSwitch", "PMux", "RectM") and d.get("outcome") == "returned"
+    return False
